@@ -68,19 +68,24 @@ Example refuted_op_law_min_bool :
   /\ c02_reasons ops_min (model_obs false empty_coll ops_min) = 32.
 Proof. repeat split; vm_compute; reflexivity. Qed.
 
-(* ---- bit 128, F-REPLACE-FILTER-ID: the replacement takes its _id from the FILTER when the filter
-   has an "_id" key: replace_one({_id: 1.0}, {a: 2}) on {_id: 1, a: 1} stores {_id: 1.0, a: 2}:
-   the _id is retyped (only Python == is checked); a replacement carrying _id: true replaces
-   the _id 1 by true. *)
+(* ---- bit 128, F-REPLACE-FILTER-ID: the replacement USED TO take its _id from the FILTER when the
+   filter has an "_id" key: replace_one({_id: 1.0}, {a: 2}) on {_id: 1, a: 1} stored
+   {_id: 1.0, a: 2}: the _id was retyped (only Python == is checked).
+   repaired in the library: the _id is taken from the document being replaced; the history now
+   stores {_id: 1, a: 2} and c02_ok holds (the guard bit 128 still fires: it is conservative
+   now for the filter part).
+   STILL OPEN: a replacement carrying _id: true replaces the _id 1 by true. *)
 Definition d_rep := VDoc [("_id", VInt 1); ("a", VInt 1)].
 Definition ops_rep_filter :=
   [OInsertOne d_rep; OReplace (VDoc [("_id", VDbl 8)]) (VDoc [("a", VInt 2)]) false].
 
+(* repaired in the library: was  [...; [(VInt 1, VDoc [("_id", VDbl 8); ("a", VInt 2)])]]  with
+   c02_ok = false *)
 Example refuted_replace_filter_id :
   modelled false empty_coll ops_rep_filter = true
   /\ map (fun o => snd (fst o)) (model_obs false empty_coll ops_rep_filter)
-     = [[(VInt 1, d_rep)]; [(VInt 1, VDoc [("_id", VDbl 8); ("a", VInt 2)])]]
-  /\ c02_ok ops_rep_filter (model_obs false empty_coll ops_rep_filter) = false
+     = [[(VInt 1, d_rep)]; [(VInt 1, VDoc [("_id", VInt 1); ("a", VInt 2)])]]
+  /\ c02_ok ops_rep_filter (model_obs false empty_coll ops_rep_filter) = true
   /\ c02_reasons ops_rep_filter (model_obs false empty_coll ops_rep_filter) = 128.
 Proof. repeat split; vm_compute; reflexivity. Qed.
 
@@ -107,14 +112,19 @@ Example remark_addtoset_conservative :
   /\ c02_reasons ops_ats (model_obs false empty_coll ops_ats) = 64.
 Proof. split; vm_compute; reflexivity. Qed.
 
-(* replace_one({_id: {$gt: 0}}, {a: 2}): apply_update puts the operator document in the _id
-   (Refuted/C02OpLaw.v) but the collection then rejects the write (the _id changed): the step
-   fails and c02_step has nothing to check. *)
+(* replace_one({_id: {$gt: 0}}, {a: 2}): apply_update USED TO put the operator document in the
+   _id (Refuted/C02OpLaw.v) and the collection then rejected the write (the _id changed): the
+   step failed with WriteError.
+   repaired in the library: the filter is not consulted, the replacement succeeds and keeps the
+   _id 1; c02_ok holds, bit 128 is conservative here. *)
 Definition ops_rep_op :=
   [OInsertOne d_rep; OReplace (VDoc [("_id", VDoc [("$gt", VInt 0)])]) (VDoc [("a", VInt 2)]) false].
 Example remark_replace_operator_id :
   map (fun o => fst (fst o)) (model_obs false empty_coll ops_rep_op)
-    = [Ok (VDoc [("inserted_id", VInt 1)]); Err EWrite]
+    = [Ok (VDoc [("inserted_id", VInt 1)]);
+       Ok (VDoc [("matched", VInt 1); ("modified", VInt 1); ("upserted_id", VNull)])]
+  /\ map (fun o => snd (fst o)) (model_obs false empty_coll ops_rep_op)
+     = [[(VInt 1, d_rep)]; [(VInt 1, VDoc [("_id", VInt 1); ("a", VInt 2)])]]
   /\ c02_ok ops_rep_op (model_obs false empty_coll ops_rep_op) = true
   /\ c02_reasons ops_rep_op (model_obs false empty_coll ops_rep_op) = 128.
 Proof. repeat split; vm_compute; reflexivity. Qed.
